@@ -508,17 +508,27 @@ def plan_c09(res, tier, seed, only):
 def plan_c08(res, tier, seed, only):
     res.functions = ["Board::parse_side_to_move", "Board::parse_castle_rights", "Board::parse_en_passant", "Board::parse_halfmove_clock",
                      "Board::parse_fullmove_number", "Board::parse_board (short strings only)"]
-    res.bounds = {"strings": "every valid UTF-8 string of <= 3 bytes (side, ep), <= 5 (castling), <= 6 (clocks); placement field: <= 3 (quick) / <= 5 (thorough) "
+    res.bounds = {"strings": "every valid UTF-8 string of <= 3 bytes (side, ep), <= 5 (castling), <= 6 (clocks); placement field: <= 2 (quick) / <= 3 (thorough) "
                              "bytes, which can never denote eight ranks", "not decided": "record splitting (split(' '), field count, error mapping) and faithful "
                              "decoding of a full placement field; whole FEN records (measured out of reach, DESIGN.md C07/C08)"}
     res.assumptions = ["field parsers are reached through the add-only hook Board::verif_parse_field"]
     cap = 900 if tier == "quick" else 3000
     names = ["c08_side", "c08_castle_fen", "c08_castle_shredder", "c08_ep", "c08_halfmove", "c08_fullmove"]
-    if tier == "thorough" and os.environ.get("VERIF_ATTEMPTS") == "1":
-        names.append("c08_placement_3")
-    else:
-        res.notrun.append("c08_placement_3 (placement field on <= 3-byte strings): did not finish in 15 min when measured; attempted only with VERIF_ATTEMPTS=1, not part of the claim")
     qs = [H("c08", nme, timeout=cap, mem_gb=10) for nme in names]
+
+    def placement(nbytes):
+        # parse_board on every string of <= nbytes bytes: too short for eight ranks, so it must be rejected and must not panic.
+        # core's memchr/memrchr are replaced by their definitions (they branch on pointer alignment); loop bounds nbytes + 2.
+        rules = [HARNESS_CODE, (r"core/src/array/", 9, "array::map in the raw constructor"),
+                 (r"parse_board|memrchr|memchr|memcmp|next_match_back|validations|library/core/src/(str|slice|iter|char|num)/", nbytes + 2,
+                  "strings of <= %d bytes" % nbytes)]
+        return Query("c08::c08_placement_%d" % nbytes, stubbing=True, rules=rules, default_unwind=nbytes + 2, timeout=cap, mem_gb=12)
+
+    qs.append(placement(2))
+    if tier == "thorough":
+        qs.append(placement(3))
+    else:
+        res.notrun.append("c08_placement_3 (placement field on <= 3-byte strings, 9 min): thorough tier")
     engine.run_plan(res, filt(qs, only), workers=8)
     return RULE
 
